@@ -297,7 +297,7 @@ def run_guarded(fn, case, timeout_s=20.0, timeout_clause=None):
         except RunTimeout:
             if timeout_clause:
                 return result('violation', violation=Violation(
-                    timeout_clause, f'run did not return within {timeout_s}s wall time',
+                    timeout_clause, 'run did not return within the wall-time limit',
                     extra={'kind': 'timeout'}).to_json())
             return result('timeout', note='run exceeded wall timeout')
         except RecursionError as e:
